@@ -43,15 +43,41 @@ structure Vals where
   temp : Int
 deriving Repr, DecidableEq, Inhabited
 
-/-- a System object: its field values and the identity of the list object held in `order` -/
+/-- a System object: its field values and the identities of the mutable container objects it holds:
+    the `order` list, the numpy arrays `pos` / `vel` / `box` and the `temperature` dict.  `copy.copy`
+    duplicates the System record only, so a copy holds the SAME five container objects. -/
 structure Sys where
   v : Vals
   orderObj : Nat
+  posObj : Nat := 0
+  velObj : Nat := 0
+  boxObj : Nat := 0
+  tempObj : Nat := 0
 deriving Repr, DecidableEq, Inhabited
+
+/-- the array-valued (mutable container) fields besides `order` -/
+inductive Arr | pos | vel | box | temp
+deriving Repr, DecidableEq
+
+def Sys.arrObj (s : Sys) : Arr → Nat
+  | .pos => s.posObj | .vel => s.velObj | .box => s.boxObj | .temp => s.tempObj
+
+def Sys.withArrObj (s : Sys) (a : Arr) (o : Nat) : Sys :=
+  match a with
+  | .pos => { s with posObj := o } | .vel => { s with velObj := o }
+  | .box => { s with boxObj := o } | .temp => { s with tempObj := o }
+
+def Vals.arr (v : Vals) : Arr → Int
+  | .pos => v.pos | .vel => v.vel | .box => v.box | .temp => v.temp
+
+def Vals.setArr (v : Vals) (a : Arr) (x : Int) : Vals :=
+  match a with
+  | .pos => { v with pos := x } | .vel => { v with vel := x }
+  | .box => { v with box := x } | .temp => { v with temp := x }
 
 structure Heap where
   sys : List Sys
-  nOrd : Nat                -- next fresh identity for an `order` list object
+  nOrd : Nat                -- next fresh identity for a container object (`order` list, array, dict)
 deriving Repr, DecidableEq
 
 def Heap.empty : Heap := { sys := [], nOrd := 0 }
@@ -92,9 +118,27 @@ def Heap.setItem0 (h : Heap) (r : Nat) (x : Int) : Option Heap :=
         if s'.orderObj = s.orderObj then { s' with v := { s'.v with order := x :: t } } else s') }
   | none => none
 
-/-- a new System object with the given values and its own `order` list -/
+/-- `system.pos = <new array>` (resp. `vel`, `box`, `temperature`): the System now holds a fresh
+    container object -/
+def Heap.setArr (h : Heap) (r : Nat) (a : Arr) (x : Int) : Heap :=
+  match h.look r with
+  | some s => { sys := h.sys.set r ({ s with v := s.v.setArr a x }.withArrObj a h.nOrd), nOrd := h.nOrd + 1 }
+  | none => h
+
+/-- in-place `system.pos[0] = x` (resp. `vel[0]`, `box[0]`, `temperature["t"]`): visible through every
+    System holding the same container object (`none`: dangling reference) -/
+def Heap.setArrItem (h : Heap) (r : Nat) (a : Arr) (x : Int) : Option Heap :=
+  match h.look r with
+  | some s =>
+    some { h with sys := h.sys.map (fun s' =>
+      if s'.arrObj a = s.arrObj a then { s' with v := s'.v.setArr a x } else s') }
+  | none => none
+
+/-- a new System object with the given values and its own five container objects -/
 def Heap.alloc (h : Heap) (v : Vals) : Heap × Nat :=
-  ({ sys := h.sys ++ [{ v := v, orderObj := h.nOrd }], nOrd := h.nOrd + 1 }, h.sys.length)
+  ({ sys := h.sys ++ [{ v := v, orderObj := h.nOrd, posObj := h.nOrd + 1, velObj := h.nOrd + 2,
+                        boxObj := h.nOrd + 3, tempObj := h.nOrd + 4 }],
+     nOrd := h.nOrd + 5 }, h.sys.length)
 
 def flipV (v : Vals) : Vals := { v with velRev := !v.velRev }
 def flipS (s : Sys) : Sys := { s with v := flipV s.v }
@@ -376,6 +420,142 @@ def showCls (c : Cls) : String :=
   (match c.sp with | none => "-" | some (.ok s) => showSideStart (some s) | some (.error e) => showErr e) ++ ";ep=" ++
   (match c.ep with | none => "-" | some (.ok s) => showSideEnd (some s) | some (.error e) => showErr e)
 
+/-! ### Extension: `__eq__`, `get_shooting_point`, `update_energies`, `empty_path`, `adress`, warnings -/
+
+/-- `Path.length` -/
+def Path.length (p : Path) : Nat := p.frames.length
+
+/-- `Path.reverse_velocities(system)`: `system.vel_rev = not system.vel_rev` (re-assignment of a plain
+    attribute of that one object) -/
+def Heap.reverseVelocities (h : Heap) (r : Nat) : Heap := h.modV r flipV
+
+/-- `DEFAULT_MAXLEN` -/
+def defaultMaxlen : Int := 100000
+
+/-- `self.empty_path(maxlen=DEFAULT_MAXLEN, **kwargs)`: outer `none` = the keyword was not passed.
+    NOTHING of `self` is looked at except its class (kept by the machine): an omitted `maxlen` is the
+    module default 100000, NOT `self.maxlen`; an omitted `time_origin` is 0. -/
+def Path.emptyPath (_self : Path) (maxlen : Option (Option Int)) (timeOrigin : Option Int) : Path :=
+  Path.empty (match maxlen with | none => some defaultMaxlen | some m => m)
+             (match timeOrigin with | none => 0 | some t => t)
+
+/-- `zip(self.phasepoints, other.phasepoints)` with `if not i == j: return False`: `System` defines no
+    `__eq__`, so `i == j` is object identity -/
+def framesIdentical : List Nat → List Nat → Bool
+  | a :: as, b :: bs => if a = b then framesIdentical as bs else false
+  | _, _ => true
+
+def showViEq (a b : Except Err (Int × Nat)) : Bool :=
+  match a, b with
+  | .ok x, .ok y => x.1 == y.1 && x.2 == y.2
+  | _, _ => false
+
+/-- `Path.__eq__(self, other)` for `other` a path object.  `sameClass` = `self.__class__ == other.__class__`,
+    `sameKeys` = `set(self.__dict__) == set(other.__dict__)` (facts about the Python objects, tracked by the
+    machine).  Branch by branch, in the code's order:
+      class, attribute names, number of frames, frame-by-frame identity, and ONLY for a non-empty path
+      `maxlen`, `time_origin`, `status`, `generated`, `length`, `ordermax`, `ordermin`, `path_number`.
+    `weights` and `weight` are never compared.  `hasattr(self, "ordermax")` evaluates the property: a frame
+    with an empty `order` list raises IndexError (hasattr only swallows AttributeError). -/
+def Path.eq (sameClass sameKeys : Bool) (h : Heap) (p q : Path) : Except Err Bool :=
+  if !sameClass then .ok false
+  else if !sameKeys then .ok false
+  else if p.frames.length != q.frames.length then .ok false
+  else if !framesIdentical p.frames q.frames then .ok false
+  else if p.frames.isEmpty then .ok true
+  else if p.maxlen != q.maxlen then .ok false
+  else if p.timeOrigin != q.timeOrigin then .ok false
+  else if p.status != q.status then .ok false
+  else if p.generated != q.generated then .ok false
+  else if p.frames.length != q.frames.length then .ok false      -- key "length"
+  else
+    match orderSeq h p with
+    | none => .error .index                                       -- hasattr(self, "ordermax")
+    | some sp =>
+      match orderSeq h q with
+      | none => .error .index                                     -- hasattr(other, "ordermax")
+      | some sq =>
+        if !showViEq (ordermax sp) (ordermax sq) then .ok false
+        else if !showViEq (ordermin sp) (ordermin sq) then .ok false
+        else if p.pathNumber != q.pathNumber then .ok false
+        else .ok true
+
+/-- `Path.__ne__`: `not self == other` -/
+def Path.ne (sameClass sameKeys : Bool) (h : Heap) (p q : Path) : Except Err Bool :=
+  match Path.eq sameClass sameKeys h p q with
+  | .ok b => .ok (!b)
+  | .error e => .error e
+
+/-- the draw `get_shooting_point` asks for: `rgen.integers(1, self.length - 1)`, uniform on `[lo, hi)` -/
+structure DrawReq where
+  lo : Int
+  hi : Int
+deriving Repr, DecidableEq
+
+def shootRequest (p : Path) : DrawReq := { lo := 1, hi := (p.frames.length : Int) - 1 }
+
+/-- Python list indexing with an `int` (negative indices count from the end) -/
+def pyIndex {α : Type} (xs : List α) (i : Int) : Option α :=
+  if 0 ≤ i then xs[i.toNat]?
+  else if -i ≤ (xs.length : Int) then xs[xs.length - (-i).toNat]? else none
+
+/-- `get_shooting_point` after the draw answered `idx`: `order = self.phasepoints[idx].order[0]` (only
+    logged, but evaluated: IndexError for an empty `order` list), then `return self.phasepoints[idx], idx`:
+    the frame OBJECT of the path (no copy) and its index -/
+def shootingPoint (h : Heap) (p : Path) (idx : Int) : Except Err (Nat × Int) :=
+  match pyIndex p.frames idx with
+  | none => .error .index
+  | some r =>
+    match h.look r with
+    | some s =>
+      match s.v.order.head? with
+      | some _ => .ok (r, idx)
+      | none => .error .index
+    | none => .error .index
+
+/-- the loop of `update_energies(ekin, vpot)`: frame `i` gets `vpot[i]` / `ekin[i]`, `None` when the list
+    is too short (IndexError caught).  Plain attribute re-assignment on the frame objects, in frame order
+    (a System that occurs twice in the path keeps what its LAST occurrence assigned). -/
+def updGo (ekin vpot : List Int) : Nat → Heap → List Nat → Heap
+  | _, h, [] => h
+  | i, h, r :: rs => updGo ekin vpot (i + 1) (h.modV r (fun v => { v with vpot := vpot[i]?, ekin := ekin[i]? })) rs
+
+def updateEnergies (h : Heap) (p : Path) (ekin vpot : List Int) : Heap := updGo ekin vpot 0 h p.frames
+
+/-- how often `update_energies` warns "Ran out of potential / kinetic energies" -/
+def updWarnings (p : Path) (ekin vpot : List Int) : Nat × Nat :=
+  (p.frames.length - vpot.length, p.frames.length - ekin.length)
+
+/-- `Path.adress`: the set of `config[0]` of the frames (here: without repetition, first occurrences) -/
+def Path.adress (h : Heap) (p : Path) : List Int :=
+  (p.frames.filterMap (fun r => (h.look r).map (fun s => s.v.config.1))).eraseDups
+
+def showOptInt (x : Option Int) : String := match x with | none => "None" | some v => toString v
+
+/-- the warnings `paste_paths` logs, in order: "Unequal length: Using m" (`uneq:m`), "Truncated while
+    pasting backwards at: n" (`tb:n`), "Truncated path at: n" (`tf:n`) — i.e. which loop gave up -/
+def pasteWarnings (back forw : Path) (overlap : Bool) (maxlen : Option Int) : List String :=
+  match pasteMaxlen back.maxlen forw.maxlen maxlen with
+  | .error _ => []
+  | .ok ml =>
+    let w0 := if maxlen.isNone && back.maxlen != forw.maxlen then ["uneq:" ++ showOptInt ml] else []
+    let np0 := Path.empty ml (back.timeOrigin - (back.frames.length : Int) + 1)
+    let (np1, ok) := appendAll np0 back.frames.reverse
+    if !ok then w0 ++ ["tb:" ++ toString np1.frames.length]
+    else
+      let fw := if overlap then forw.frames.drop 1 else forw.frames
+      let (np2, ok2) := appendAll np1 fw
+      if !ok2 then w0 ++ ["tf:" ++ toString np2.frames.length] else w0
+
+/-- the warning of `__iadd__` ("Truncated path at n while adding paths"): the append/stop logic does not
+    depend on what is appended, so it is that of `appendAll` -/
+def iaddWarnings (self other : Path) : List String :=
+  let (np, ok) := appendAll self other.frames
+  if ok then [] else ["ti:" ++ toString np.frames.length]
+
+def joinTok (head : String) (ws : List String) : String :=
+  ws.foldl (fun acc w => acc ++ "," ++ w) head
+
 /-! ### The op-program machine replayed by the tie -/
 
 inductive Field
@@ -405,14 +585,49 @@ inductive Op
   | del (i k : Nat)                                        -- del paths[i].phasepoints[k]
   | cpa (i j k : Nat)                                      -- paths[i].append(paths[j].phasepoints[k].copy())
   | emptyOf (i : Nat) (maxlen : Option Int) (timeOrigin : Int)  -- paths.append(paths[i].empty_path(maxlen=, time_origin=))
+  | newSub (maxlen : Option Int) (timeOrigin : Int) (c : Nat)   -- paths.append(<subclass c of Path>(maxlen, time_origin))
+  | pattr (i k : Nat)                                      -- setattr(paths[i], "x<k>", 1): one more attribute name
+  | eq (i j : Nat)                                         -- log paths[i] == paths[j]
+  | ne (i j : Nat)                                         -- log paths[i] != paths[j]
+  | shoot (i : Nat) (u : Nat)                              -- paths[i].get_shooting_point(<stub generator answering lo + u mod (hi−lo)>)
+  | upd (i : Nat) (ekin vpot : List Int)                   -- paths[i].update_energies(ekin, vpot)
+  | emptyDef (i : Nat) (maxlen : Option (Option Int)) (timeOrigin : Option Int)  -- empty_path with omitted keywords
+  | setArrItem (i k : Nat) (a : Arr) (x : Int)             -- paths[i].phasepoints[k].pos[0] = x   (in place)
+  | adr (i : Nat)                                          -- log sorted(paths[i].adress)
+  | revVel (i k : Nat)                                     -- paths[i].reverse_velocities(paths[i].phasepoints[k])
+
+/-- what the machine knows about a Python path object beyond the `Path` record: its class (0 = `Path`,
+    c ≥ 1 = a subclass) and the attribute names it has besides the standard ones -/
+structure PMeta where
+  cls : Nat := 0
+  extra : List Nat := []
+deriving Repr, DecidableEq, Inhabited
 
 structure Machine where
   heap : Heap
   paths : List Path
   log : List String          -- one token per op: what the op returned
+  pmeta : List PMeta := []    -- parallel to `paths`
 deriving Repr
 
 def Machine.init : Machine := { heap := Heap.empty, paths := [], log := [] }
+
+def Machine.metaOf (m : Machine) (i : Nat) : PMeta := m.pmeta[i]?.getD default
+
+/-- the new path object made by `self.empty_path(...)` = `self.__class__(...)`: same class, standard attributes -/
+def Machine.childMeta (m : Machine) (i : Nat) : PMeta := { cls := (m.metaOf i).cls, extra := [] }
+
+def sameSet (a b : List Nat) : Bool := a.all (fun x => b.contains x) && b.all (fun x => a.contains x)
+
+def showExceptBool : Except Err Bool → String
+  | .ok true => "True" | .ok false => "False" | .error e => showErr e
+
+/-- insertion sort (canonical order for the printed `adress` set) -/
+def insSorted (x : Int) : List Int → List Int
+  | [] => [x]
+  | y :: t => if x ≤ y then x :: y :: t else y :: insSorted x t
+
+def sortInts (xs : List Int) : List Int := xs.foldr insSorted []
 
 def assignField (h : Heap) (r : Nat) : Field → Heap
   | .config a b => h.modV r (fun v => { v with config := (a, b) })
@@ -420,10 +635,10 @@ def assignField (h : Heap) (r : Nat) : Field → Heap
   | .velRev b => h.modV r (fun v => { v with velRev := b })
   | .ekin x => h.modV r (fun v => { v with ekin := x })
   | .vpot x => h.modV r (fun v => { v with vpot := x })
-  | .pos x => h.modV r (fun v => { v with pos := x })
-  | .vel x => h.modV r (fun v => { v with vel := x })
-  | .box x => h.modV r (fun v => { v with box := x })
-  | .temp x => h.modV r (fun v => { v with temp := x })
+  | .pos x => h.setArr r .pos x
+  | .vel x => h.setArr r .vel x
+  | .box x => h.setArr r .box x
+  | .temp x => h.setArr r .temp x
 
 def assignPField (p : Path) : PField → Path
   | .maxlen m => { p with maxlen := m }
@@ -438,7 +653,7 @@ def Machine.say (m : Machine) (s : String) : Machine := { m with log := m.log ++
 
 /-- one op; ill-formed ops (index out of range, `iadd i i`) answer "skip" and change nothing -/
 def Machine.step (m : Machine) : Op → Machine
-  | .new ml t => { m with paths := m.paths ++ [Path.empty ml t] }.say "new"
+  | .new ml t => { m with paths := m.paths ++ [Path.empty ml t], pmeta := m.pmeta ++ [default] }.say "new"
   | .sys i v =>
     match m.paths[i]? with
     | none => m.say "skip"
@@ -461,25 +676,26 @@ def Machine.step (m : Machine) : Op → Machine
     match m.paths[i]?, m.paths[j]? with
     | some p, some q =>
       let (h1, p1) := Path.iadd m.heap p q
-      { m with heap := h1, paths := m.paths.set i p1 }.say "iadd"
+      { m with heap := h1, paths := m.paths.set i p1 }.say (joinTok "iadd" (iaddWarnings p q))
     | _, _ => m.say "skip"
   | .copy i =>
     match m.paths[i]? with
     | none => m.say "skip"
     | some p =>
       let (h1, p1) := Path.copy m.heap p
-      { m with heap := h1, paths := m.paths ++ [p1] }.say "copy"
+      { m with heap := h1, paths := m.paths ++ [p1], pmeta := m.pmeta ++ [m.childMeta i] }.say "copy"
   | .rev i ofn rv =>
     match m.paths[i]? with
     | none => m.say "skip"
     | some p =>
       let (h1, p1) := Path.reverse m.heap p ofn rv
-      { m with heap := h1, paths := m.paths ++ [p1] }.say "rev"
+      { m with heap := h1, paths := m.paths ++ [p1], pmeta := m.pmeta ++ [m.childMeta i] }.say "rev"
   | .paste i j ov ml =>
     match m.paths[i]?, m.paths[j]? with
     | some p, some q =>
       match paste p q ov ml with
-      | .ok np => { m with paths := m.paths ++ [np] }.say "paste"
+      | .ok np => { m with paths := m.paths ++ [np], pmeta := m.pmeta ++ [m.childMeta i] }.say
+                    (joinTok "paste" (pasteWarnings p q ov ml))
       | .error .type => m.say "err:type"
       | .error _ => m.say "err:other"
     | _, _ => m.say "skip"
@@ -538,7 +754,71 @@ def Machine.step (m : Machine) : Op → Machine
   | .emptyOf i ml t =>
     match m.paths[i]? with
     | none => m.say "skip"
-    | some _ => { m with paths := m.paths ++ [Path.empty ml t] }.say "empty"
+    | some _ => { m with paths := m.paths ++ [Path.empty ml t], pmeta := m.pmeta ++ [m.childMeta i] }.say "empty"
+  | .newSub ml t c =>
+    { m with paths := m.paths ++ [Path.empty ml t], pmeta := m.pmeta ++ [({ cls := c, extra := [] } : PMeta)] }.say "new"
+  | .pattr i k =>
+    match m.paths[i]? with
+    | none => m.say "skip"
+    | some _ =>
+      let me := m.metaOf i
+      { m with pmeta := m.pmeta.set i { me with extra := k :: me.extra } }.say "pattr"
+  | .eq i j =>
+    match m.paths[i]?, m.paths[j]? with
+    | some p, some q =>
+      m.say (showExceptBool (Path.eq ((m.metaOf i).cls == (m.metaOf j).cls)
+              (sameSet (m.metaOf i).extra (m.metaOf j).extra) m.heap p q))
+    | _, _ => m.say "skip"
+  | .ne i j =>
+    match m.paths[i]?, m.paths[j]? with
+    | some p, some q =>
+      m.say (showExceptBool (Path.ne ((m.metaOf i).cls == (m.metaOf j).cls)
+              (sameSet (m.metaOf i).extra (m.metaOf j).extra) m.heap p q))
+    | _, _ => m.say "skip"
+  | .shoot i u =>
+    match m.paths[i]? with
+    | none => m.say "skip"
+    | some p =>
+      let rq := shootRequest p
+      let head := "shoot:" ++ toString rq.lo ++ ":" ++ toString rq.hi
+      -- numpy: `integers(low, high)` raises ValueError when `low >= high`
+      if rq.hi ≤ rq.lo then m.say (head ++ ":err:value")
+      else
+        let idx := rq.lo + ((u : Int) % (rq.hi - rq.lo))
+        match shootingPoint m.heap p idx with
+        | .ok (r, k) => m.say (head ++ ":" ++ toString k ++ ":" ++ toString (p.frames.idxOf r))
+        | .error e => m.say (head ++ ":" ++ showErr e)
+  | .upd i ekin vpot =>
+    match m.paths[i]? with
+    | none => m.say "skip"
+    | some p =>
+      let w := updWarnings p ekin vpot
+      { m with heap := updateEnergies m.heap p ekin vpot }.say ("upd:" ++ toString w.1 ++ ":" ++ toString w.2)
+  | .emptyDef i ml t =>
+    match m.paths[i]? with
+    | none => m.say "skip"
+    | some p => { m with paths := m.paths ++ [p.emptyPath ml t], pmeta := m.pmeta ++ [m.childMeta i] }.say "empty"
+  | .setArrItem i k a x =>
+    match m.paths[i]? with
+    | none => m.say "skip"
+    | some p =>
+      match p.frames[k]? with
+      | none => m.say "skip"
+      | some r =>
+        match m.heap.setArrItem r a x with
+        | some h1 => { m with heap := h1 }.say "seta"
+        | none => m.say "skip"
+  | .adr i =>
+    match m.paths[i]? with
+    | none => m.say "skip"
+    | some p => m.say (joinTok "adr" ((sortInts (p.adress m.heap)).map toString))
+  | .revVel i k =>
+    match m.paths[i]? with
+    | none => m.say "skip"
+    | some p =>
+      match p.frames[k]? with
+      | none => m.say "skip"
+      | some r => { m with heap := m.heap.reverseVelocities r }.say "revvel"
   | .del i k =>
     match m.paths[i]? with
     | none => m.say "skip"
